@@ -21,13 +21,16 @@ def rule_R1_evaluated(ctx, prj) -> bool:
         raise AnalysisError("lex has no filter_comments parameter")
     tuples = [(0, "Comment.Single", "# c"), (3, "Text.Whitespace", "\n"), (4, "Keyword", "def"), (7, "Text", " "), (8, "Name", "f"), (9, "Punctuation", "("),
               (10, "Text", ""), (10, "Comment.Multiline", "/* m */"), (17, "Punctuation", ")"), (18, "Literal.String", "' '"), (21, "Text", "\n  "),
-              (24, "Comment.Special", "#!x"), (27, "Operator", "+"), (28, "Other", "?")]
-    code = "# c\ndef f(/* m */)' '\n  #!x+?"
+              (24, "Comment.Special", "#!x"), (27, "Operator", "+"), (28, "Other", "?"), (29, "Text", "\n"), (30, "Comment.Preproc", "  define X "),
+              (41, "Literal.String", " s ")]
+    code = "# c\ndef f(/* m */)' '\n  #!x+?\n  define X  s "
     ok = True
     for val in (True, False, None):
         def hook(it, kind, f, args, kwargs, node, cur):
             if kind == "call" and isinstance(f, tuple) and f and f[0] == "method" and f[2] == "get_tokens_unprocessed":
                 return [(o, PygT(k), t) for o, k, t in tuples]
+            if kind == "call" and isinstance(f, tuple) and f and f[0] == "method" and f[2] == "get_tokens":
+                raise Unknown("lex reads the lexer through get_tokens (which strips leading and trailing newlines of the text)")
             return NotImplemented
         kwargs = {} if val is None else {"filter_comments": val}
         it = MiniInterp(prj, hook, max_steps=200000)
@@ -148,7 +151,7 @@ def rule_R2(ctx, prj):
         for nls, offs in (([], [0, 4, 9]), ([5, 9], [0, 3, 5, 6, 9, 10, 14]), ([0, 1], [0, 1, 2, 3])):
             got = lex_positions(prj, nls, offs)
             vals = [v for v, _, _ in got]
-            if vals != [f"t{o}" for o in offs]:
+            if vals != [v for _, v in lex_model(nls, offs)[1]]:
                 ctx.viol("R2", "lex/reorders", fi.site(), f"for lexer tuples at offsets {offs} lex returns the tokens {vals}: not one token per tuple in the lexer's order")
                 return
             okn += len(offs)
@@ -352,11 +355,28 @@ def rule_R5(ctx, prj):
         ctx.ok("R5", fi.site(), "newline table searched in an unrecognised way (not judged)")
 
 
+def lex_model(newlines: list, offsets: list):
+    """a text with newline characters exactly at `newlines` and the lexer's pieces starting at `offsets` (each piece runs to the
+    next offset; piece k consists of the k-th letter, newline positions hold a newline): -> (text, [(offset, value)])"""
+    offs = sorted(set(offsets))
+    n_chars = max(offs + list(newlines) + [0]) + 1
+    ends = offs[1:] + [n_chars]
+    chars = []
+    for i in range(n_chars):
+        k = max([j for j, o in enumerate(offs) if o <= i] or [0])
+        chars.append("\n" if i in set(newlines) else chr(97 + k % 26))
+    text = "".join(chars)
+    return text, [(o, text[o:e]) for o, e in zip(offs, ends)]
+
+
 def lex_positions(prj, newlines: list, offsets: list):
-    """(line, column) lex gives to tokens at `offsets` of a text whose newline characters are at `newlines`:
-    lex evaluated with the lexer's tuples and the newline table supplied, filter_tokens bypassed"""
-    from ..absint import BoundFunc, MiniInterp, PyRaise, Sym, Unknown
+    """(value, line, column) of the tokens lex returns for a text whose newline characters are at `newlines` and whose lexer
+    pieces start at `offsets`: lex evaluated with the lexer answering at the pygments boundary (get_tokens_unprocessed: the pieces
+    with their offsets; get_tokens: pygments' documented preprocessing - leading and trailing newlines stripped, one newline
+    ensured - and the pieces of that text without offsets), the newline table supplied, filter_tokens bypassed"""
+    from ..absint import BoundFunc, MiniInterp, PygT, PyRaise, Sym, Unknown
     fi = prj.func(f"{LU}:lex")
+    text, pieces = lex_model(newlines, offsets)
 
     def hook(it, kind, f, args, kwargs, node, cur):
         if kind != "call":
@@ -364,16 +384,27 @@ def lex_positions(prj, newlines: list, offsets: list):
         if isinstance(f, BoundFunc) and f.fi.qual.endswith(":filter_tokens"):
             a = args[0]
             return list(a.rest()) if hasattr(a, "rest") else a
-        if isinstance(f, BoundFunc) and f.fi.qual.endswith(":get_newline_indices"):
+        if isinstance(f, BoundFunc) and f.fi.qual.endswith(":get_newline_indices") and args and args[0] == text:
             return list(newlines)
         if isinstance(f, tuple) and f and f[0] == "method" and f[2] in ("get_tokens_unprocessed",):
-            return [(o, Sym("Name"), f"t{o}") for o in offsets]
+            if args and args[0] != text:
+                raise Unknown("the lexer is handed another text than lex received")
+            return [(o, PygT("Name"), v) for o, v in pieces]
+        if isinstance(f, tuple) and f and f[0] == "method" and f[2] == "get_tokens":
+            if args and args[0] != text:
+                raise Unknown("the lexer is handed another text than lex received")
+            lead = len(text) - len(text.lstrip("\n"))
+            body = text.strip("\n")
+            out = []
+            for o, v in pieces:
+                lo, hi = max(o - lead, 0), min(o - lead + len(v), len(body))
+                if hi > lo:
+                    out.append((PygT("Name"), body[lo:hi]))
+            if not body.endswith("\n"):
+                out.append((PygT("Text.Whitespace"), "\n"))
+            return out
         return NotImplemented
     it = MiniInterp(prj, hook, max_steps=400000)
-    # a text consistent with the newline table (newline characters exactly at the given offsets), for forms of lex that derive
-    # the table from the text themselves
-    n_chars = max(list(offsets) + list(newlines) + [0]) + 4
-    text = "".join("\n" if i in set(newlines) else "x" for i in range(n_chars))
     args = []
     for p in fi.params():
         if p == "filter_comments":
@@ -416,8 +447,12 @@ def rule_R35_evaluated(ctx, prj):
     n = 0
     for name, nls, offs in scenarios:
         got = lex_positions(prj, nls, offs)
+        pieces = lex_model(nls, offs)[1]
         if len(got) != len(offs):
-            raise Unknown(f"{len(got)} tokens for {len(offs)} lexer tuples")
+            # lex dropped (or added) tokens before building positions: the tokens that consist of code are matched by their text
+            by_val = {v: (ln, c) for v, ln, c in got}
+            got = [(v, *by_val.get(v, (None, None))) for _, v in pieces if v.strip()]
+            offs = [o for o, v in pieces if v.strip()]
         for o, (val, line, col) in zip(offs, got):
             n += 1
             want = spec_position(nls, o)
